@@ -3,6 +3,7 @@ ACID transaction implementation for the Python Iceberg implementation
 """
 
 import copy
+import dataclasses
 import json
 import os
 import threading
@@ -85,13 +86,20 @@ class Transaction:
         """Check if transaction is active"""
         return self._is_active and not self._is_committed and not self._is_rolled_back
 
-    def append_files(self, files: List[DataFile]) -> "Transaction":
+    def append_files(
+        self, files: List[DataFile], _statistics_computed_here: bool = False
+    ) -> "Transaction":
         """Queue pre-built data files to append to the table.
 
         Each file must exist AND (for parquet, on a table that has a persisted
         schema) carry a schema identical to the table's - see
         _validate_file_schema for why divergence is rejected here rather than
         discovered at scan time.
+
+        Column bounds supplied with a pre-built file are not taken on trust:
+        file pruning skips a file whose bounds exclude the filter, so wrong
+        bounds make filtered scans silently drop rows the table holds. They are
+        recomputed from the file's content (see _with_verified_bounds).
         """
         if not self.is_active():
             raise RuntimeError("Transaction is not active")
@@ -116,6 +124,9 @@ class Transaction:
                 )
             if table_schema is not None:
                 self._validate_file_schema(data_file, table_schema)
+
+        if not _statistics_computed_here:
+            files = [self._with_verified_bounds(f, table_schema) for f in files]
 
         self._operations.append({"type": "append_files", "files": files})
 
@@ -195,6 +206,44 @@ class Transaction:
                 f"table's persisted schema. Appending it would make table scans fail. "
                 f"Table schema: {expected}; file schema: {actual}"
             )
+
+    def _with_verified_bounds(
+        self, data_file: DataFile, table_schema: Optional[Schema]
+    ) -> DataFile:
+        """The data file with column bounds that describe its content.
+
+        lower_bounds / upper_bounds of a caller-built DataFile are the caller's
+        claim. prune_files_by_bounds trusts the stored bounds, so a claim that
+        does not enclose the file's values (stale statistics, bounds of another
+        file, ids of another schema) made scan(filter=...) return fewer rows
+        than the table holds. A file that comes with bounds gets them recomputed
+        from its content, exactly as append_data computes them for the files it
+        writes; without a table schema to map columns to field ids they are
+        dropped (no bounds: the file is never pruned). The caller's object is
+        left untouched.
+        """
+        if data_file.lower_bounds is None and data_file.upper_bounds is None:
+            return data_file
+
+        lower_bounds = None
+        upper_bounds = None
+        if table_schema is not None:
+            import pyarrow.parquet as pq
+
+            dfm = self.file_manager.data_file_manager
+            try:
+                with dfm.open_parquet_source(data_file.file_path) as src:
+                    content = pq.read_table(src)
+            except Exception as e:
+                raise ValueError(
+                    f"Cannot read '{data_file.file_path}' to verify the column bounds "
+                    f"supplied with it: {e}. Refusing to append a file with unverified "
+                    f"bounds - wrong bounds make filtered scans drop rows."
+                ) from e
+            lower_bounds, upper_bounds = dfm._compute_column_bounds(content, table_schema)
+        return dataclasses.replace(
+            data_file, lower_bounds=lower_bounds, upper_bounds=upper_bounds
+        )
 
     def append_pandas(
         self,
@@ -343,8 +392,9 @@ class Transaction:
             checksum=data_file.checksum,
         )
 
-        # Queue the newly created file for appending
-        self.append_files([updated_data_file])
+        # Queue the newly created file for appending (its bounds were computed
+        # from the very table that was written: nothing to verify)
+        self.append_files([updated_data_file], _statistics_computed_here=True)
 
         return self
 
